@@ -1,11 +1,11 @@
-(** C05: catalogue of simbody's built-in mobilizers, written from the PUBLIC documentation
+(** C05: catalogue of the simbody built-in mobilizers, written from the PUBLIC documentation
     (Simbody/include/simbody/internal/MobilizedBody_*.h), generic in [NumOps]:
       X_FM(q) = (R_FM, p_FM)     pose of the outboard frame M in the inboard frame F
       H_FM(q)                     one spatial vector (w,v) per generalized speed, expressed in F:
                                   V_FM = sum_i u_i H_i = (angular velocity of M in F, velocity of Mo in F)
       N(q), NInv(q), NDot(q,qdot) qdot = N u
     plus the reversed mobilizer (RigidBodyNode.h / RigidBodyNodeSpec.cpp) and the closed-form
-    fitters (setQToFit*/setUToFit*).  No proofs here; theorems are in C05_Proofs.v (over ROps);
+    fitters (setQToFit.., setUToFit..).  No proofs here; theorems are in C05_Proofs.v (over ROps);
     the extracted float instance runs against the compiled code in checks/C05.py, checks/C03.py.
     The N / NInv / NDot blocks of the Euler-angle and quaternion coordinates are the helpers of
     Rotation.h, regenerated from source into Gen/rot_gen.v on every run (C28 proves them). *)
@@ -262,8 +262,8 @@ Definition mob_H (m:mspec) (q:list T) : list (SpatialVec T) :=
   | MBushing => Bushing_H K (l3 q 0)
   | MBall => Ball_H K
   | MFree => Free_H K
-  | MLineOrientation => Line_H (ballR m q)
-  | MFreeLine => Line_H (ballR m q) ++ Translation_H K
+  | MLineOrientation => Line_H K (ballR m q)
+  | MFreeLine => Line_H K (ballR m q) ++ Translation_H K
   | MEllipsoid => Ell_H K (l3 (m_par m) 0) (ballR m q)
   | MSphericalCoords => Sph_H K (sc_of (m_par m)) (l3 q 0)
   end.
